@@ -157,11 +157,13 @@ pub fn catch<T>(f: impl FnOnce() -> T) -> Caught<T> {
 
 /// Is this panic location inside the library under test (or its parser) rather than the harness?
 pub fn panic_in_library(loc: &str) -> bool {
-    loc.contains("/repo/")
-        || loc.contains("saphyr-parser")
-        || loc.starts_with("src/")
-        || loc.contains("/rustc/")
-        || loc.contains("library/")
+    // harness sources are reported relative to the harness crate ("src/bin/c14.rs",
+    // "src/engine.rs"); the library is a path dependency outside it and is reported with its
+    // absolute path ("/repo/src/de.rs", or a scratch copy ".../repo/src/..." in mutant runs)
+    if loc.starts_with("src/") || loc.contains("/harness/src/") || loc.contains("/h/src/") {
+        return false;
+    }
+    loc.contains("/repo/") || loc.contains("saphyr-parser") || loc.contains("/rustc/") || loc.contains("library/") || loc.contains("/.cargo/registry/")
 }
 
 // ------------------------------------------------------------------------------------------
